@@ -29,6 +29,9 @@ Tok(t, R) ==
       [] t = "W64"      -> WordOf(<<64>>)
       [] t = "W96"      -> WordOf(<<96>>)
       [] t = "W33"      -> WordOf(<<33>>)
+      [] t = "W65"      -> WordOf(<<65>>)
+      [] t = "WTOP"     -> <<1>> \o Zeros(31)                    \* 2^248: only the most significant byte set
+      [] t = "B32"      -> <<32>> \o Zeros(31)                   \* first byte 32
       [] t = "WMEGA"    -> WordOf(<<16, 0, 0>>)                 \* 2^20
       [] t = "WU64"     -> WordOf(Rep(8, 255))                  \* 2^64-1
       [] t = "WNEG32"   -> WordOf(Rep(7, 255) \o <<224>>)       \* 2^64-32: offset+32 wraps to 0
